@@ -34,17 +34,22 @@ Strip(r) == POp(r.op, r.c, r.v, r.cs, r.w, r.n, r.child)
 \* trace-driven goroutines
 TG(label, pend, got, c) == [role |-> label, mk |-> {}, mkw |-> {}, pend |-> pend, got |-> got, c |-> c]
 TP(p) == gs[p].pend
+\* the channel an environment goroutine works on: outputs are what consumers receive from,
+\* inputs what producers send on and close (by role, not by who created the channel)
+ChanOf(role, np, old) ==
+  IF role = "consumer" /\ np.op = "recv" THEN np.c
+  ELSE IF role = "producer" /\ np.op \in {"send", "close"} THEN np.c ELSE old
 NewCh(e) == {x.id : x \in ToSet(e.st.ch)}
 NewWg(e) == {x.id : x \in ToSet(e.st.wg)}
 TA(p, r) ==
   LET g == gs[p]
       np == IF HasG(Ev, p) THEN Strip(PendIn(Ev, p)) ELSE PExit
       got == IF g.role = "consumer" /\ g.pend.op = "recv" /\ r.ok THEN Append(g.got, r.v) ELSE g.got
-      c == IF g.role = "consumer" /\ np.op = "recv" THEN np.c ELSE g.c
+      c == ChanOf(g.role, np, g.c)
   IN [g EXCEPT !.pend = np, !.got = got, !.c = c, !.mk = NewCh(Ev), !.mkw = NewWg(Ev)]
 TB(p, c) ==
   LET np == IF HasG(Ev, c) THEN Strip(PendIn(Ev, c)) ELSE PExit
-  IN [gs[c].as EXCEPT !.pend = np, !.c = IF np.op = "recv" THEN np.c ELSE "", !.mk = NewCh(Ev), !.mkw = NewWg(Ev)]
+  IN [gs[c].as EXCEPT !.pend = np, !.c = ChanOf(gs[c].as.role, np, ""), !.mk = NewCh(Ev), !.mkw = NewWg(Ev)]
 
 Proj == [ch |-> ProjCh, wg |-> ProjWg, pend |-> ProjPend(TP), panic |-> panicked]
 
@@ -66,15 +71,19 @@ Start ==
   /\ gs' = [p \in {x.g : x \in ToSet(Ev.all.g)} |->
               LET lab == (CHOOSE x \in ToSet(Ev.all.g) : x.g = p).label
                   role == IF lab = "" THEN "internal" ELSE lab IN
-              IF HasG(Ev, p) THEN TG(role, Strip(PendIn(Ev, p)), <<>>, IF PendIn(Ev, p).op = "recv" THEN PendIn(Ev, p).c ELSE "")
+              IF HasG(Ev, p) THEN TG(role, Strip(PendIn(Ev, p)), <<>>, ChanOf(role, PendIn(Ev, p), ""))
               ELSE Absent(TG(role, PExit, <<>>, ""))]
   /\ skip' = FALSE
   /\ UNCHANGED bad
 
+TOutputs == {gs[p].c : p \in {x \in Procs : Live(x) /\ gs[x].role = "consumer" /\ gs[x].c \in DOMAIN ch}}
+TInputs  == {gs[p].c : p \in {x \in Procs : Live(x) /\ gs[x].role = "producer" /\ gs[x].c \in DOMAIN ch}}
+TCloseAfterDrain == \A o \in TOutputs : ch[o].closed => \A i \in TInputs : ch[i].closed /\ ch[i].buf = <<>>
+
 \* properties of the statement that must hold in every state of every run
 StateChecks ==
   {<<"panic: " \o panicked', panicked' = "no">>,
-   <<"output closed before all inputs were closed and drained", CloseAfterDrain'>>,
+   <<"output closed before all inputs were closed and drained", TCloseAfterDrain'>>,
    <<"delivered items are not, per input, a duplicate-free in-order prefix of what was sent", DeliveredPrefix'>>}
 
 StepMatch ==
@@ -112,11 +121,22 @@ End ==
           <<"end: outcome panic but no panic state", o = "panic" <=> panicked # "no">>})
          viol == Checks({
             <<"deadlock", ~(o = "stuck" /\ EnvBlocked)>>,
-            <<"goroutines left blocked after the outputs were closed and drained", ~(o = "stuck" /\ ~EnvBlocked)>>,
+            <<"goroutines left blocked after the combinator finished", ~(o = "stuck" /\ ~EnvBlocked)>>,
             <<"no termination within the step bound", o # "steplimit">>,
             <<"runtime panic", o # "usererr">>,
             <<"item lost", o = "done" => DeliveredAllNow>>,
-            <<"output not closed", o = "done" => \A x \in Outputs(cfg) : ch[x].closed>>})
+            <<"output not closed", o = "done" => \A x \in TOutputs : ch[x].closed>>,
+            \* C20 (Do): what the caller observed, reported by the environment in the end line
+            <<"Do did not return", (cfg.comb = "do" /\ o = "done") => Ev.returned>>,
+            <<"Do returned before every function had returned",
+                (cfg.comb = "do" /\ Ev.returned) => \A i \in DOMAIN Ev.atreturn : Ev.atreturn[i]>>,
+            <<"Do: a value is not in its position",
+                (cfg.comb = "do" /\ Ev.returned) => \A i \in DOMAIN Ev.results : Ev.results[i] = 100 + (i - 1)>>,
+            <<"Do: error is not nil exactly when a function failed, or is none of the returned errors",
+                (cfg.comb = "do" /\ Ev.returned) =>
+                   LET codes == {cfg.fail[i] : i \in DOMAIN cfg.fail} IN
+                   /\ (Ev.err = 0 <=> codes \subseteq {0})
+                   /\ Ev.err \in codes \cup {0}>>})
      IN bad' = bad \o SetToSeq({[l |-> l, run |-> run, kind |-> "infra", why |-> w] : w \in infra})
                   \o SetToSeq({[l |-> l, run |-> run, kind |-> "violation", why |-> w] : w \in viol})
   /\ UNCHANGED <<run, skip, cfg, ch, wg, gs, panicked, last>>
